@@ -126,6 +126,8 @@ class Repo:
             from . import localnames
             lt = localnames.load_table()
             shp0 = localnames.load_shapes()
+            if shp0 and "@attrs" in shp0:    # first, so that the texts the later passes compare carry the pinned attribute names
+                self.inline_log.extend(localnames.recover_attrs([(m, t) for _, m, _, _, t in parsed], shp0["@attrs"]))
             if shp0:
                 for rel, modname, is_pkg, src, tree in parsed:
                     self.inline_log.extend(localnames.recover_params(tree, modname, shp0))
